@@ -56,11 +56,23 @@ static int pack_files(sqfs_block_processor_t *data, fstree_t *fs,
 		      options_t *opt)
 {
 	tree_node_t *node;
-	int ret;
+	char *cwd = NULL;
+	int ret = -1;
 
-	if (opt->packdir != NULL && chdir(opt->packdir) != 0) {
-		perror(opt->packdir);
-		return -1;
+	/* the output file may be named relative to the current directory
+	   and has to be found again if the image is discarded */
+	if (opt->packdir != NULL) {
+		cwd = getcwd(NULL, 0);
+		if (cwd == NULL) {
+			perror("getcwd");
+			return -1;
+		}
+
+		if (chdir(opt->packdir) != 0) {
+			perror(opt->packdir);
+			free(cwd);
+			return -1;
+		}
 	}
 
 	for (node = fs->files; node != NULL; node = node->next_by_type) {
@@ -71,7 +83,8 @@ static int pack_files(sqfs_block_processor_t *data, fstree_t *fs,
 			node_path = fstree_get_path(node);
 			if (node_path == NULL) {
 				perror("reconstructing file path");
-				return -1;
+				ret = -1;
+				goto out;
 			}
 
 			ret = canonicalize_name(node_path);
@@ -86,11 +99,20 @@ static int pack_files(sqfs_block_processor_t *data, fstree_t *fs,
 		ret = pack_file(data, path, node, opt);
 		free(node_path);
 
-		if (ret)
-			return -1;
+		if (ret) {
+			ret = -1;
+			goto out;
+		}
 	}
 
-	return 0;
+	ret = 0;
+out:
+	if (cwd != NULL && chdir(cwd) != 0) {
+		perror(cwd);
+		ret = -1;
+	}
+	free(cwd);
+	return ret;
 }
 
 int main(int argc, char **argv)
